@@ -2435,3 +2435,125 @@ V('c06-compare-secret-unguarded-prep', 'C06', 'R6.13', 'pymap/user.py',
                 return False  # prohibited by the string preparation
             return hash_context.verify(prepared, prepare(password))''',
   '''            return hash_context.verify(prepare(value), prepare(password))''')
+FILTERPY = 'pymap/backend/dict/filter.py'
+SEARCHKEY = 'pymap/parsing/specials/searchkey.py'
+CONC = 'pymap/concurrent.py'
+V('c02-bucket-popped-unconditionally', 'C02', 'R2.9', DICTMBX,
+  '''        uid_set = data.get(prev_mod_seq, None)
+        if uid_set is not None:
+            uid_set.discard(uid)
+            if not uid_set:
+                del data[prev_mod_seq]
+                self._mod_seqs_order.remove(prev_mod_seq)''',
+  '''        uid_set = data.get(prev_mod_seq, None)
+        if uid_set is not None:
+            uid_set.discard(uid)
+            del data[prev_mod_seq]
+            if not uid_set:
+                self._mod_seqs_order.remove(prev_mod_seq)''')
+V('c02-cleanup-truth-test', 'C02', 'R2.9', MAILDIRMBX,
+  '                if info is None:\n                    uidl.remove(rec.uid)',
+  '                if not info:\n                    uidl.remove(rec.uid)')
+V('c02-cleanup-twin-not-in', 'C02', 'R2.9', MAILDIRMBX,
+  '                if info is None:\n                    uidl.remove(rec.uid)',
+  '                if key not in keys:\n                    uidl.remove(rec.uid)',
+  expect='silent')
+V('c03-text-unwraps-without-section', 'C03', 'R3.1', 'pymap/message.py',
+  '''        if section:
+            if msg.is_rfc822:
+                msg = msg.body.nested[0]
+            else:
+                return Writeable.empty()
+        return msg.body''', '''        if msg.is_rfc822:
+            msg = msg.body.nested[0]
+        elif section:
+            return Writeable.empty()
+        return msg.body''')
+V('c05-close-returns-before-clear', 'C05', 'R5.4', STATE,
+  '''        selected = self.selected
+        self._selected = None
+        if not selected.readonly:
+            await self.session.expunge_mailbox(selected)''',
+  '''        selected = self.selected
+        if selected.readonly:
+            return ResponseOk(cmd.tag, cmd.command + b' completed.'), None
+        self._selected = None
+        await self.session.expunge_mailbox(selected)''')
+V('c05-selected-gains-len', 'C05', 'R5.9', SEL,
+  '''    @property
+    def mailbox_id(self) -> ObjectId:
+        """The selected mailbox object ID.''', '''    def __len__(self) -> int:
+        return self._messages.exists
+
+    @property
+    def mailbox_id(self) -> ObjectId:
+        """The selected mailbox object ID.''')
+V('c09-authorize-target-roles', 'C09', 'R9.4', 'pymap/backend/dict/__init__.py',
+  '''        roles = authenticated.roles
+        if authcid != authzid and 'admin' not in roles:''',
+  '''        target = await Identity(authzid, self, None, frozenset()).get()
+        roles = authenticated.roles | target.roles
+        if authcid != authzid and 'admin' not in roles:''')
+V('c10-store-skips-empty-set', 'C10', 'R10.3', SESS,
+  '''            msg = await mbx.update(uid, cached_msg, permanent_flags, mode)
+            if not msg.expunged:''',
+  '''            if permanent_flags:
+                msg = await mbx.update(uid, cached_msg, permanent_flags, mode)
+            else:
+                msg = await mbx.get(uid, cached_msg)
+            if not msg.expunged:''')
+V('c13-searchkey-hash-no-inverse', 'C13', 'R13.8', SEARCHKEY,
+  'return hash((self.value, self.filter, self.inverse))',
+  'return hash((self.value, self.filter))')
+V('c14-append-shielded', 'C14', 'R14.2', SESS,
+  'msg = await mbx.append(append_msg, recent=not dest_selected)',
+  'msg = await asyncio.shield(mbx.append(append_msg, recent=not dest_selected))',
+  edits=[(SESS, 'msg = await mbx.append(append_msg, recent=not dest_selected)',
+          'msg = await asyncio.shield(\n                    mbx.append(append_msg, recent=not dest_selected))'),
+         (SESS, 'from __future__ import annotations\n',
+          'from __future__ import annotations\n\nimport asyncio\n')])
+V('c16-predicate-after-overwrite', 'C16', 'R16.1', DICTMBX,
+  '''        if wait_on is not None:
+            either_event = wait_on.or_event(self._updated)
+            if selected.mod_sequence == self._mod_sequences.highest:
+                await either_event.wait()
+        mod_sequence = selected.mod_sequence
+        selected.mod_sequence = self._mod_sequences.highest''',
+  '''        mod_sequence = selected.mod_sequence
+        selected.mod_sequence = self._mod_sequences.highest
+        if wait_on is not None:
+            either_event = wait_on.or_event(self._updated)
+            if selected.mod_sequence == self._mod_sequences.highest:
+                await either_event.wait()''')
+V('c19-rename-onto-itself', 'C19', 'R19.4', FILTERPY,
+  '        elif after_name in self._filters:',
+  '        elif after_name != before_name and after_name in self._filters:')
+V('c19-rename-twin-early-return', 'C19', 'R19.4', FILTERPY,
+  '''        if before_name not in self._filters:
+            raise KeyError(before_name)
+        elif after_name in self._filters:''',
+  '''        if before_name not in self._filters:
+            raise KeyError(before_name)
+        elif before_name == after_name:
+            return
+        elif after_name in self._filters:''', expect='silent')
+V('c20-filelock-unlock-in-outer-finally', 'C20', 'R20.4', CONC,
+  '''        for delay in self._write_retry_delay:
+            await asyncio.sleep(delay)
+            if self._try_lock():
+                try:
+                    yield
+                finally:
+                    self._unlock()
+                break
+        else:
+            raise TimeoutError()''', '''        try:
+            for delay in self._write_retry_delay:
+                await asyncio.sleep(delay)
+                if self._try_lock():
+                    yield
+                    break
+            else:
+                raise TimeoutError()
+        finally:
+            self._unlock()''')
